@@ -19,7 +19,7 @@ LEVEL = "exploration"
 RULE = ("every built-in data command x 1..5 inputs x rank 1-3 shapes x int/float dtypes x mask styles (nomask, all-false, random, "
         "single cell, all-but-one, all) x 3 payloads under the mask; CSV cases vary the number stored in missing cells; distinct by "
         "(command, n, rank, dtypes, mask classes, params)")
-REQUIRED_COUNTERS = ["serialised_reads_rerun", "cancelling_weight_cases", "csv_written_file_checks", "netcdf_joint_write_then_reuse_checks", "netcdf_marker_variation_checks", "mask_superset_checks", "mask_exact_checks", "payload_variation_checks", "masked_input_cells", "csv_payload_checks", "follow_up_mask_checks", "netcdf_fill_mask_checks", "large_rasters_checked", "csv_rereads_with_other_marker", "large_files_read", "later_same_family_checks", "printed_fields_compared", "netcdf_write_read_back_checks"]
+REQUIRED_COUNTERS = ["fields_with_infinite_cells", "serialised_reads_rerun", "cancelling_weight_cases", "csv_written_file_checks", "netcdf_joint_write_then_reuse_checks", "netcdf_marker_variation_checks", "mask_superset_checks", "mask_exact_checks", "payload_variation_checks", "masked_input_cells", "csv_payload_checks", "follow_up_mask_checks", "netcdf_fill_mask_checks", "large_rasters_checked", "csv_rereads_with_other_marker", "large_files_read", "later_same_family_checks", "printed_fields_compared", "netcdf_write_read_back_checks"]
 ASSUMPTIONS = ["what is stored under result masks and fill values are not judged", "NaN/inf and zero-length arrays are never generated",
                "cases where the reference is undefined (constant arrays, equal thresholds, zero weight sums) only get check (a) and (c)"]
 
@@ -86,6 +86,12 @@ def cases(ctx):
             mvv = rng.choice([8.0, -2.0, 0.5, 4242.0])
             vals = [v if v != mvv else v + 1.0 for v in vals]
             vals[k_] = mvv / 2.0
+        elif rng.random() < 0.5:
+            # some valid cell lies a hair beside the marker: only cells equal to the marker are missing
+            k_ = rng.choice([k for k, f in enumerate(fill) if not f])
+            mvv = rng.choice([-9999.0, 0.0, 4242.0, 65535.0, 255.0])      # (inside the range the file declares valid)
+            vals = [v if v != mvv else v + 1.0 for v in vals]
+            vals[k_] = {-9999.0: -9998.95, 0.0: rng.choice([4e-9, 5e-324, -1e-12]), 255.0: 255.001}.get(mvv, mvv * (1 - 1e-7))
         yield {"kind": "ncread", "values": vals, "fill": fill, "missing_value": mvv,
                "marking": rng.choice(["_FillValue", "_FillValue", "missing_value", "valid_range", "valid_min_max"]),
                "chain": rng.choice([["Copy"], ["Sum"], ["Normalize"], ["CvtToFuzzy"], ["Mean"], ["Multiply"]])}
@@ -93,6 +99,9 @@ def cases(ctx):
         yield gen_csv_case(rng)
     # what PrintVars writes for a field with missing cells must not depend on the numbers hidden underneath them
     for i in range(ctx.n(4, 60)):
+        yield {"kind": "infcells", "cmd": rng.choice(["Copy", "Maximum", "Minimum", "Sum"]), "route": rng.choice(["run", "result"]),
+               "data": [[rng.choice([1.5, -2.0, float("inf"), 7.0, float("inf"), 0.0]) for _ in range(6)] for _ in range(rng.randint(1, 3))],
+               "masks": [[rng.random() < 0.25 for _ in range(6)] for _ in range(3)]}
         yield {"kind": "print", "cells": rng.choice([6, 40, 999, 1001, 1200, 5000]), "rank2": rng.random() < 0.4, "rseed": rng.randrange(10 ** 9), "to_file": rng.random() < 0.7}
     # CSV tables of 70 000 - 140 000 rows with a missing marker (block-wise readers)
     for i in range(ctx.n(1, 8)):
@@ -375,7 +384,39 @@ def run_bigcsv(ctx, case):
             return
 
 
+def run_infcells(ctx, case):
+    """Present cells that hold an infinity are present cells: the result is missing exactly where an input is."""
+    cmd = case["cmd"]
+    inputs = [numpy.ma.array(numpy.array(d, dtype="float64"), mask=list(m)) for d, m in zip(case["data"], case["masks"])]
+    ctx.feature(("infcells", cmd, len(inputs), case["route"]))
+    prog = arr.new_program()
+    names = []
+    for i, a in enumerate(inputs):
+        arr.standin(prog, "I%d" % i, a, fuzzy=False)
+        names.append("I%d" % i)
+    args = {"InFieldName": names[0]} if arr.INPUT_STYLE[cmd] == "one" else {"InFieldNames": names}
+    if arr.INPUT_STYLE[cmd] == "one":
+        inputs = inputs[:1]
+    out = arr.invoke(prog, cmd, "Res", args, via_run=case["route"] == "run")
+    ctx.count("fields_with_infinite_cells")
+    if not out.ok:
+        ctx.fail("%s:raises-%s:infinite-cells" % (cmd, out.inner() or out.err), {"data": case["data"]})
+        return
+    union = _union_mask(inputs)
+    rmask = numpy.ma.getmaskarray(out.value)
+    if (rmask != union).any():
+        i = int(numpy.flatnonzero(rmask != union)[0])
+        ctx.fail("%s:%s:infinite-cells" % (cmd, "valid-cell-missing" if rmask[i] else "missing-cell-present"), {"cell": i, "inputs_at_cell": [repr(float(numpy.ma.getdata(a)[i])) for a in inputs], "route": case["route"]})
+        return
+    # ... and stays so for whoever uses the result next
+    fo = arr.invoke(prog, "Copy", "After", {"InFieldName": "Res"}, via_run=case["route"] == "run")
+    if fo.ok and (numpy.ma.getmaskarray(fo.value) != union).any():
+        ctx.fail("%s:copy-of-the-result-differs-in-missing-cells:infinite-cells" % cmd, {"route": case["route"]})
+
+
 def run_case(ctx, case):
+    if case["kind"] == "infcells":
+        return run_infcells(ctx, case)
     if case["kind"] == "print":
         return run_print(ctx, case)
     if case["kind"] == "bigcsv":
